@@ -1,11 +1,14 @@
 (* Proofs/JoinProgress.v — C13 join_returns (safety form): in every reachable stuck state of the
-   fixed code (lp = true) no task is blocked in join(); with acyclic targets every task is PDone.
-   Covers the three orders of the target's exit-callback run versus the joiner's
+   fixed code (lp = true, pf = true) no task is blocked in join(); with acyclic targets every task
+   is PDone.  Covers the three orders of the target's exit-callback run versus the joiner's
    add_thread_exit_callback / suspend (refused: ran||terminated seen under the target's lock;
    callback invoked between the registration and the suspension: the resume leaves a token or the
-   re-check of the flag sees it; normal wake-up) and spurious returns of the suspension at any
-   time (AResume / stale PCbRes / PIntrWake by anybody).
-   Hypothesis [inj]: a task is referred to by at most one valid handle (pika::thread is move-only).
+   re-check of the flag sees it; normal wake-up), spurious returns of the suspension at any
+   time (AResume / stale PCbRes / PIntrWake by anybody), and — session c13e — joiners that are
+   interrupted inside join(), catch thread_interrupted (ACatch) and join AGAIN while their stale
+   callback (with its own flag) is still registered, at any point of the target's exit loop.
+   No hypothesis on the number of handles/joiners per target is needed any more: with the second
+   fix (pf) every registered callback is taken out of the list under the lock and invoked once.
    Structure: [jeff] summarises one step; [JInv] is preserved by every effect. *)
 From Coq Require Import List Arith Bool Lia.
 From Pika Require Import Base.Conc Base.Agent Model.Join Proofs.JoinProofs.
@@ -17,74 +20,65 @@ Definition joinpc (p : pcs) : option nat :=
   | _ => None end.
 Definition waitpc (p : pcs) : option nat :=
   match p with PJoinChk k _ _ | PJoinSusp k _ | PJoinWake k _ => Some k | _ => None end.
-Definition regpc (p : pcs) : option nat :=
-  match p with PJoinChk k _ _ | PJoinSusp k _ | PJoinWake k _ | PJoinDet k _ => Some k | _ => None end.
 Definition issusp (p : pcs) : bool := match p with PJoinSusp _ _ => true | _ => false end.
 Definition iswake (p : pcs) : bool := match p with PJoinWake _ _ => true | _ => false end.
-(* the task has not yet invoked (or finished invoking) its exit callbacks and will look at the list *)
-Definition precall (p : pcs) : bool :=
-  match p with PCbRes _ | PCbPop | PFree | PTerm | PDone => false | _ => true end.
-Definition incb (p : pcs) : bool := match p with PCbCall | PCbRes _ | PCbPop => true | _ => false end.
+(* the exit loop is over: the task will not look at its callback list again *)
 Definition postcb (p : pcs) : bool := match p with PFree | PTerm | PDone => true | _ => false end.
 Definition plain (p : pcs) : bool :=
   match p with PBody | PDtorStop _ | PDtorJoin _ | PIntrWake _ => true | _ => false end.
 
 Section Prog.
   Variable tgt : nat -> nat -> nat.
-  Notation tstep := (tstep true tgt).
+  Notation tstep := (tstep true true tgt).
 
-  Definition jchg (g g' : G) (h : nat -> nat -> bool) (c : nat -> list nat) (r tm : nat -> bool)
-             (f : nat -> nat -> bool) (a : nat -> agent_state) : Prop :=
-    hid g' = h /\ cbs g' = c /\ ran g' = r /\ term g' = tm /\ flag g' = f /\ ag g' = a.
+  Definition jchg (g g' : G) (h : nat -> nat -> bool) (c : nat -> list (nat * nat)) (r tm : nat -> bool)
+             (f : nat -> nat -> nat -> bool) (a : nat -> agent_state) (gn : nat -> nat) : Prop :=
+    hid g' = h /\ cbs g' = c /\ ran g' = r /\ term g' = tm /\ flag g' = f /\ ag g' = a /\ gen g' = gn.
 
   Inductive jeff (t : nat) (g : G) (l : L) (g' : G) (l' : L) : Prop :=
   | JE_stutter : g' = g -> l' = l -> jeff t g l g' l'
   | JE_plain h a : plain (pc l) = true -> plain (pc l') = true -> ~ (pc l = PBody /\ prog l = []) ->
       (forall x y, h x y = true -> hid g x y = true) -> (forall x y, x <> t -> h x y = hid g x y) ->
       (a = ag g \/ (exists x, a = set1 (ag g) x (a_resume (ag g x))) \/ a = set1 (ag g) t (a_phase_end (ag g t))) ->
-      jchg g g' h (cbs g) (ran g) (term g) (flag g) a -> jeff t g l g' l'
+      jchg g g' h (cbs g) (ran g) (term g) (flag g) a (gen g) -> jeff t g l g' l'
   | JE_start k d : plain (pc l) = true -> ~ (pc l = PBody /\ prog l = []) -> pc l' = PJoinIP k d -> hid g t k = true -> tgt t k <> t ->
-      jchg g g' (hid g) (cbs g) (ran g) (term g) (flag g) (ag g) -> jeff t g l g' l'
-  | JE_ended : in_exit (pc l) = false -> pc l <> PIdle -> ~ (pc l = PBody /\ prog l = []) -> l' = ended ->
-      jchg g g' (hid g) (cbs g) (ran g) (term g) (flag g) (ag g) -> jeff t g l g' l'
+      jchg g g' (hid g) (cbs g) (ran g) (term g) (flag g) (ag g) (gen g) -> jeff t g l g' l'
+  (* an exception leaves the current operation: thread_interrupted (caught or not), join errors in ~jthread *)
+  | JE_ended : in_exit (pc l) = false -> pc l <> PIdle -> ~ (pc l = PBody /\ prog l = []) -> pc l' = PBody ->
+      jchg g g' (hid g) (cbs g) (ran g) (term g) (flag g) (ag g) (gen g) -> jeff t g l g' l'
   | JE_ip k d : pc l = PJoinIP k d -> pc l' = PJoinAdd k d ->
-      jchg g g' (hid g) (cbs g) (ran g) (term g) (flag g) (ag g) -> jeff t g l g' l'
+      jchg g g' (hid g) (cbs g) (ran g) (term g) (flag g) (ag g) (gen g) -> jeff t g l g' l'
   | JE_add_ref k d : pc l = PJoinAdd k d -> pc l' = PJoinDet k d ->
-      jchg g g' (hid g) (cbs g) (ran g) (term g) (flag g) (ag g) -> jeff t g l g' l'
+      jchg g g' (hid g) (cbs g) (ran g) (term g) (flag g) (ag g) (gen g) -> jeff t g l g' l'
   | JE_add_push k d : pc l = PJoinAdd k d -> pc l' = PJoinChk k d false ->
       ran g (tgt t k) = false -> term g (tgt t k) = false ->
-      jchg g g' (hid g) (set1 (cbs g) (tgt t k) (t :: cbs g (tgt t k))) (ran g) (term g)
-           (set2 (flag g) t (tgt t k) false) (ag g) -> jeff t g l g' l'
-  | JE_chk_det k d w : pc l = PJoinChk k d w -> pc l' = PJoinDet k d -> flag g t (tgt t k) = true ->
-      jchg g g' (hid g) (cbs g) (ran g) (term g) (flag g) (ag g) -> jeff t g l g' l'
-  | JE_chk_susp k d w : pc l = PJoinChk k d w -> pc l' = PJoinSusp k d -> flag g t (tgt t k) = false ->
-      jchg g g' (hid g) (cbs g) (ran g) (term g) (flag g) (ag g) -> jeff t g l g' l'
+      jchg g g' (hid g) (set1 (cbs g) (tgt t k) ((t, S (gen g t)) :: cbs g (tgt t k))) (ran g) (term g)
+           (set3 (flag g) t (tgt t k) (S (gen g t)) false) (ag g) (set1 (gen g) t (S (gen g t))) -> jeff t g l g' l'
+  | JE_chk_det k d w : pc l = PJoinChk k d w -> pc l' = PJoinDet k d -> flag g t (tgt t k) (gen g t) = true ->
+      jchg g g' (hid g) (cbs g) (ran g) (term g) (flag g) (ag g) (gen g) -> jeff t g l g' l'
+  | JE_chk_susp k d w : pc l = PJoinChk k d w -> pc l' = PJoinSusp k d -> flag g t (tgt t k) (gen g t) = false ->
+      jchg g g' (hid g) (cbs g) (ran g) (term g) (flag g) (ag g) (gen g) -> jeff t g l g' l'
   | JE_susp k d : pc l = PJoinSusp k d -> pc l' = PJoinWake k d ->
-      jchg g g' (hid g) (cbs g) (ran g) (term g) (flag g) (set1 (ag g) t (fst (a_suspend (ag g t)))) -> jeff t g l g' l'
+      jchg g g' (hid g) (cbs g) (ran g) (term g) (flag g) (set1 (ag g) t (fst (a_suspend (ag g t)))) (gen g) -> jeff t g l g' l'
   | JE_wake k d : pc l = PJoinWake k d -> pc l' = PJoinChk k d true ->
-      jchg g g' (hid g) (cbs g) (ran g) (term g) (flag g) (ag g) -> jeff t g l g' l'
+      jchg g g' (hid g) (cbs g) (ran g) (term g) (flag g) (ag g) (gen g) -> jeff t g l g' l'
   | JE_det k d : pc l = PJoinDet k d -> pc l' = PBody ->
-      jchg g g' (set2 (hid g) t k false) (cbs g) (ran g) (term g) (flag g) (ag g) -> jeff t g l g' l'
+      jchg g g' (set2 (hid g) t k false) (cbs g) (ran g) (term g) (flag g) (ag g) (gen g) -> jeff t g l g' l'
   | JE_bodydone : pc l = PBody -> prog l = [] -> pc l' = PExit ->
-      jchg g g' (hid g) (cbs g) (ran g) (term g) (flag g) (ag g) -> jeff t g l g' l'
-  | JE_exit_empty : pc l = PExit -> cbs g t = [] -> pc l' = PFree ->
-      jchg g g' (hid g) (cbs g) (set1 (ran g) t true) (term g) (flag g) (ag g) -> jeff t g l g' l'
-  | JE_exit_call : pc l = PExit -> cbs g t <> [] -> pc l' = PCbCall ->
-      jchg g g' (hid g) (cbs g) (ran g) (term g) (flag g) (ag g) -> jeff t g l g' l'
-  | JE_call j r : pc l = PCbCall -> cbs g t = j :: r -> pc l' = PCbRes j ->
-      jchg g g' (hid g) (cbs g) (ran g) (term g) (set2 (flag g) j t true) (ag g) -> jeff t g l g' l'
-  | JE_call_empty : pc l = PCbCall -> cbs g t = [] -> pc l' = PCbPop ->
-      jchg g g' (hid g) (cbs g) (ran g) (term g) (flag g) (ag g) -> jeff t g l g' l'
+      jchg g g' (hid g) (cbs g) (ran g) (term g) (flag g) (ag g) (gen g) -> jeff t g l g' l'
+  (* the locked part of the exit loop: first entry (PExit) or after a callback (PCbPop) *)
+  | JE_loop_empty : (pc l = PExit \/ pc l = PCbPop) -> cbs g t = [] -> pc l' = PFree ->
+      jchg g g' (hid g) (cbs g) (set1 (ran g) t true) (term g) (flag g) (ag g) (gen g) -> jeff t g l g' l'
+  | JE_loop_pop j c r : (pc l = PExit \/ pc l = PCbPop) -> cbs g t = (j, c) :: r -> pc l' = PCbRun j c ->
+      jchg g g' (hid g) (set1 (cbs g) t r) (ran g) (term g) (flag g) (ag g) (gen g) -> jeff t g l g' l'
+  | JE_run j c : pc l = PCbRun j c -> pc l' = PCbRes j ->
+      jchg g g' (hid g) (cbs g) (ran g) (term g) (set3 (flag g) j t c true) (ag g) (gen g) -> jeff t g l g' l'
   | JE_res j : pc l = PCbRes j -> pc l' = PCbPop ->
-      jchg g g' (hid g) (cbs g) (ran g) (term g) (flag g) (set1 (ag g) j (a_resume (ag g j))) -> jeff t g l g' l'
-  | JE_pop_fin : pc l = PCbPop -> tl (cbs g t) = [] -> pc l' = PFree ->
-      jchg g g' (hid g) (set1 (cbs g) t []) (set1 (ran g) t true) (term g) (flag g) (ag g) -> jeff t g l g' l'
-  | JE_pop_more : pc l = PCbPop -> tl (cbs g t) <> [] -> pc l' = PCbCall ->
-      jchg g g' (hid g) (set1 (cbs g) t (tl (cbs g t))) (ran g) (term g) (flag g) (ag g) -> jeff t g l g' l'
+      jchg g g' (hid g) (cbs g) (ran g) (term g) (flag g) (set1 (ag g) j (a_resume (ag g j))) (gen g) -> jeff t g l g' l'
   | JE_free : pc l = PFree -> pc l' = PTerm ->
-      jchg g g' (hid g) (set1 (cbs g) t []) (ran g) (term g) (flag g) (ag g) -> jeff t g l g' l'
+      jchg g g' (hid g) (set1 (cbs g) t []) (ran g) (term g) (flag g) (ag g) (gen g) -> jeff t g l g' l'
   | JE_term : pc l = PTerm -> pc l' = PDone ->
-      jchg g g' (hid g) (cbs g) (ran g) (set1 (term g) t true) (flag g) (set1 (ag g) t (a_phase_end (ag g t))) ->
+      jchg g g' (hid g) (cbs g) (ran g) (set1 (term g) t true) (flag g) (set1 (ag g) t (a_phase_end (ag g t))) (gen g) ->
       jeff t g l g' l'.
 
   Ltac jc := unfold jchg; proj; repeat split; reflexivity.
@@ -93,19 +87,21 @@ Section Prog.
     [ .. | jc ]; proj; eauto; try (let X := fresh in intros [_ X]; congruence); try (let X := fresh in intros [X _]; congruence).
 
   Lemma ipoint_jchg p t g g' : ipoint_step p t g = Some g' ->
-    jchg g g' (hid g) (cbs g) (ran g) (term g) (flag g) (ag g).
+    jchg g g' (hid g) (cbs g) (ran g) (term g) (flag g) (ag g) (gen g).
   Proof.
     unfold ipoint_step. destruct (en g t && req g t); [|discriminate]. intros H. inversion H; subst. jc.
   Qed.
 
-  (* every non-stutter step is taken by an unblocked task *)
-  Lemma tstep_jeff t g l :
+  (* every non-stutter step is taken by an unblocked task; PCbCall belongs to the code before the
+     second fix and is never reached with pf = true (JInv.k9) *)
+  Lemma tstep_jeff t g l : pc l <> PCbCall ->
     jeff t g l (fst (tstep tt t g l)) (snd (tstep tt t g l)) /\
     (blocked (ag g t) = true -> tstep tt t g l = (g, l)).
   Proof.
+    intros Hncall.
     unfold Join.tstep. destruct (blocked (ag g t)) eqn:Hb; [split; [now apply JE_stutter|reflexivity]|].
     split; [|discriminate].
-    destruct (pc l) eqn:Hpc; try (now apply JE_stutter).
+    destruct (pc l) eqn:Hpc; try (now apply JE_stutter); try congruence.
     - (* PBody *)
       destruct (prog l) as [|a rest] eqn:Hprog.
       { eapply JE_bodydone; eauto. jc. }
@@ -130,6 +126,7 @@ Section Prog.
         * eapply JE_ended; eauto; try rewrite Hpc; try reflexivity; try discriminate. eapply ipoint_jchg; eauto.
         * jplain Hpc.
       + jplain Hpc.
+      + jplain Hpc.
     - (* PDtorStop *) proj. jplain Hpc.
     - (* PDtorJoin *)
       unfold join_check. destruct (hid g t k) eqn:Hh; cbn [negb].
@@ -139,42 +136,39 @@ Section Prog.
       + proj. eapply JE_ended; eauto; try rewrite Hpc; try reflexivity; try discriminate; [intros [E _]; congruence|jc].
     - (* PJoinIP *)
       destruct (ipoint_step IPJoinEntry t g) eqn:E; proj.
-      + eapply JE_ended; eauto; try rewrite Hpc; try reflexivity; try discriminate; [intros [E' _]; congruence|eapply ipoint_jchg; eauto].
+      + eapply JE_ended; eauto; try rewrite Hpc; try reflexivity; try discriminate; try apply thrown_pc; [intros [E' _]; congruence|eapply ipoint_jchg; eauto].
       + eapply JE_ip; eauto. jc.
     - (* PJoinAdd *)
       destruct (ran g (tgt t k) || term g (tgt t k)) eqn:Hrt; proj.
       + eapply JE_add_ref; eauto. jc.
       + apply orb_false_iff in Hrt. destruct Hrt. eapply JE_add_push; eauto. jc.
     - (* PJoinChk *)
-      destruct (flag g t (tgt t k)) eqn:Hf; proj.
+      destruct (flag g t (tgt t k) (gen g t)) eqn:Hf; proj.
       + eapply JE_chk_det; eauto. jc.
       + eapply JE_chk_susp; eauto. jc.
     - (* PJoinSusp *)
       destruct (ipoint_step IPSuspendPre t g) eqn:E; proj.
-      + eapply JE_ended; eauto; try rewrite Hpc; try reflexivity; try discriminate; [intros [E' _]; congruence|eapply ipoint_jchg; eauto].
+      + eapply JE_ended; eauto; try rewrite Hpc; try reflexivity; try discriminate; try apply thrown_pc; [intros [E' _]; congruence|eapply ipoint_jchg; eauto].
       + eapply JE_susp; eauto. jc.
     - (* PJoinWake *)
       destruct (ipoint_step IPSuspendPost t g) eqn:E; proj.
-      + eapply JE_ended; eauto; try rewrite Hpc; try reflexivity; try discriminate; [intros [E' _]; congruence|eapply ipoint_jchg; eauto].
+      + eapply JE_ended; eauto; try rewrite Hpc; try reflexivity; try discriminate; try apply thrown_pc; [intros [E' _]; congruence|eapply ipoint_jchg; eauto].
       + eapply JE_wake; eauto. jc.
     - (* PJoinDet *)
       proj. eapply JE_det; eauto. destruct d; jc.
     - (* PIntrWake *) proj. jplain Hpc.
     - (* PExit *)
-      destruct (cbs g t) eqn:Hc; proj.
-      + eapply JE_exit_empty; eauto. jc.
-      + eapply JE_exit_call; eauto; [congruence|jc].
-    - (* PCbCall *)
-      destruct (cbs g t) eqn:Hc; proj.
-      + eapply JE_call_empty; eauto. jc.
-      + eapply JE_call; eauto. jc.
+      destruct (cbs g t) as [|[j c] r] eqn:Hc; proj.
+      + eapply JE_loop_empty; eauto. jc.
+      + eapply JE_loop_pop; eauto. jc.
     - (* PCbRes *) proj. eapply JE_res; eauto. jc.
     - (* PCbPop *)
-      destruct (tl (cbs g t)) eqn:Hc; proj.
-      + eapply JE_pop_fin; eauto. jc.
-      + eapply JE_pop_more; eauto; [congruence|]. unfold jchg; proj. rewrite Hc. repeat split; reflexivity.
+      destruct (cbs g t) as [|[j c] r] eqn:Hc; proj.
+      + eapply JE_loop_empty; eauto. jc.
+      + eapply JE_loop_pop; eauto. jc.
     - (* PFree *) proj. eapply JE_free; eauto. jc.
     - (* PTerm *) proj. eapply JE_term; eauto. jc.
+    - (* PCbRun *) proj. eapply JE_run; eauto. jc.
   Qed.
 End Prog.
 
@@ -182,63 +176,38 @@ Section JInv.
   Variable tgt : nat -> nat -> nat.
   Variable h0 : nat -> nat -> bool.
   Variable n : nat.
-  (* a task is referred to by at most one valid handle (pika::thread is move-only) *)
-  Definition inj_handles : Prop :=
-    forall t k t' k', h0 t k = true -> h0 t' k' = true -> tgt t k = tgt t' k' -> t = t' /\ k = k'.
-  Hypothesis inj : inj_handles.
 
-  (* joiner t (waiting on handle k, target u): it is, or is about to be, woken with the flag set;
-     or its callback is registered at a target that has not yet looked at its list / is about to
-     invoke it; or the target has set the flag and is about to resume it *)
+  (* joiner t (waiting on handle k, target u, in its registration number c = gen t — the FIRST join
+     or a repeated one): it is, or is about to be, woken with the flag set; or this registration is
+     still in the target's list and the target's exit loop is not over; or the target has taken
+     exactly this entry out of the list and is about to invoke it; or the target has set the flag
+     and is about to resume t.  Stale registrations (t, c') with c' < c play no role. *)
   Definition Jst (g : G) (ls : locals L) (t k : nat) : Prop :=
-    let u := tgt t k in
-    (flag g t u = true /\ blocked (ag g t) = false /\ (issusp (pc (ls t)) = true -> tok (ag g t) = true)) \/
-    (cbs g u = [t] /\ precall (pc (ls u)) = true) \/
-    (pc (ls u) = PCbRes t /\ flag g t u = true).
-
-  Definition regd (g : G) (ls : locals L) (j k : nat) : Prop :=
-    regpc (pc (ls j)) = Some k \/ hid g j k = false \/ (pc (ls j) = PBody /\ prog (ls j) = []) \/
-    in_exit (pc (ls j)) = true.
+    let u := tgt t k in let c := gen g t in
+    (flag g t u c = true /\ blocked (ag g t) = false /\ (issusp (pc (ls t)) = true -> tok (ag g t) = true)) \/
+    (In (t, c) (cbs g u) /\ postcb (pc (ls u)) = false) \/
+    pc (ls u) = PCbRun t c \/
+    (pc (ls u) = PCbRes t /\ flag g t u c = true).
 
   Record JInv (g : G) (ls : locals L) : Prop := {
     k1 : forall t k, hid g t k = true -> h0 t k = true;
     k2 : forall t k, joinpc (pc (ls t)) = Some k -> hid g t k = true /\ tgt t k <> t;
     k3 : forall t, t < n -> pc (ls t) <> PIdle;
     k4 : forall t, blocked (ag g t) = true -> iswake (pc (ls t)) = true;
-    k5 : forall u j, In j (cbs g u) -> exists k, tgt j k = u /\ h0 j k = true /\ regd g ls j k;
-    k6 : forall u, incb (pc (ls u)) = true -> cbs g u <> [];
     k7 : forall u, postcb (pc (ls u)) = true -> ran g u = true;
-    k8 : forall t k, waitpc (pc (ls t)) = Some k -> Jst g ls t k }.
+    k8 : forall t k, waitpc (pc (ls t)) = Some k -> Jst g ls t k;
+    k9 : forall t, pc (ls t) <> PCbCall }.
 
   Lemma upd_prog (ls : locals L) t l x : prog (upd ls t l x) = if Nat.eqb x t then prog l else prog (ls x).
   Proof. unfold upd. now destruct (Nat.eqb x t). Qed.
 
-  Ltac jprep := match goal with H : jchg _ _ _ _ _ _ _ _ |- _ =>
-    let Eh := fresh "Eh" in let Ec := fresh "Ec" in let Er := fresh "Er" in let Et := fresh "Et" in
-    let Ef := fresh "Ef" in let Ea := fresh "Ea" in destruct H as (Eh & Ec & Er & Et & Ef & Ea) end.
   Ltac updc x t := rewrite ?upd_pc, ?upd_prog in *; destruct (Nat.eqb_spec x t); subst.
-
-  (* facts shared by all effects *)
-  Lemma jeff_hid t g l g' l' : jeff tgt t g l g' l' ->
-    (forall a b, hid g' a b = true -> hid g a b = true) /\ (forall a b, a <> t -> hid g' a b = hid g a b).
-  Proof.
-    intros He. destruct He; try jprep; subst; try rewrite Eh; auto.
-    - split; [intros a b; apply set2_false_true|]. intros a b Hn. apply set2_other. now left.
-  Qed.
-
-  Lemma jeff_pc t g l g' l' : jeff tgt t g l g' l' -> pc l <> PIdle -> pc l' <> PIdle.
-  Proof.
-    intros He Hn. destruct He; subst; auto;
-      try match goal with H : pc l' = _ |- _ => rewrite H; discriminate end;
-      try (cbn; discriminate).
-    destruct (pc l'); try discriminate.
-  Qed.
 
   Ltac djeff He := destruct He as
     [ Eg El
     | h a Hpl Hpl' Hne Hhm Hhf Hag Hj
     | k d Hpl Hne Hpc' Hhid Htg Hj
-    | Hex Hni Hne El Hj
+    | Hex Hni Hne Hpc' Hj
     | k d Hpc Hpc' Hj
     | k d Hpc Hpc' Hj
     | k d Hpc Hpc' Hran Hterm Hj
@@ -249,21 +218,40 @@ Section JInv.
     | k d Hpc Hpc' Hj
     | Hpc Hprog Hpc' Hj
     | Hpc Hcb Hpc' Hj
-    | Hpc Hcb Hpc' Hj
-    | j r Hpc Hcb Hpc' Hj
-    | Hpc Hcb Hpc' Hj
+    | j c r Hpc Hcb Hpc' Hj
+    | j c Hpc Hpc' Hj
     | j Hpc Hpc' Hj
-    | Hpc Hcb Hpc' Hj
-    | Hpc Hcb Hpc' Hj
     | Hpc Hpc' Hj
     | Hpc Hpc' Hj ];
-    [ subst | destruct Hj as (Eh & Ec & Er & Et & Ef & Ea) .. ].
+    [ subst | destruct Hj as (Eh & Ec & Er & Et & Ef & Ea & Egn) .. ].
+
+  (* facts shared by all effects *)
+  Lemma jeff_hid t g l g' l' : jeff tgt t g l g' l' ->
+    (forall a b, hid g' a b = true -> hid g a b = true) /\ (forall a b, a <> t -> hid g' a b = hid g a b).
+  Proof.
+    intros He. djeff He; try rewrite Eh; auto.
+    - split; [intros a b; apply set2_false_true|]. intros a b Hn. apply set2_other. now left.
+  Qed.
+
+  Lemma jeff_pc t g l g' l' : jeff tgt t g l g' l' -> pc l <> PIdle -> pc l' <> PIdle.
+  Proof.
+    intros He Hn. djeff He; auto;
+      try match goal with H : pc l' = _ |- _ => rewrite H; discriminate end.
+    destruct (pc l'); try discriminate.
+  Qed.
+
+  Lemma jeff_ncall t g l g' l' : jeff tgt t g l g' l' -> pc l <> PCbCall -> pc l' <> PCbCall.
+  Proof.
+    intros He Hn. djeff He; auto;
+      try match goal with H : pc l' = _ |- _ => rewrite H; discriminate end.
+    destruct (pc l'); try discriminate.
+  Qed.
 
   Lemma upd_self (ls : locals L) t x : upd ls t (ls t) x = ls x.
   Proof. unfold upd. destruct (Nat.eqb_spec x t); subst; reflexivity. Qed.
 
-  Lemma plain_joinpc p : plain p = true -> joinpc p = None /\ in_exit p = false /\ incb p = false /\ postcb p = false /\
-    waitpc p = None /\ regpc p = None /\ iswake p = false /\ precall p = true /\ p <> PIdle.
+  Lemma plain_joinpc p : plain p = true -> joinpc p = None /\ in_exit p = false /\ postcb p = false /\
+    waitpc p = None /\ iswake p = false /\ p <> PIdle.
   Proof. destruct p; cbn; try discriminate; intros _; repeat split; discriminate. Qed.
 
   Lemma P_k2 t g ls g' l' : JInv g ls -> jeff tgt t g (ls t) g' l' ->
@@ -273,7 +261,7 @@ Section JInv.
     assert (Hoth : forall x k, x <> t -> joinpc (pc (ls x)) = Some k -> hid g' x k = true /\ tgt x k <> x).
     { intros x k Hx E. rewrite Hfr by auto. auto. }
     djeff He; intros x k0; try (rewrite upd_self; apply K2);
-      updc x t; auto; try rewrite Hpc'; try rewrite El; cbn; try discriminate;
+      updc x t; auto; try rewrite Hpc'; cbn; try discriminate;
       try (intros E; inversion E; subst; rewrite Eh; first [apply K2; rewrite Hpc; reflexivity | split; assumption]).
     - destruct (plain_joinpc _ Hpl') as [E _]. rewrite E. discriminate.
   Qed.
@@ -283,6 +271,13 @@ Section JInv.
   Proof.
     intros I He x Hx. updc x t; [|now apply (k3 _ _ I)].
     eapply jeff_pc; eauto. now apply (k3 _ _ I).
+  Qed.
+
+  Lemma P_k9 t g ls g' l' : JInv g ls -> jeff tgt t g (ls t) g' l' ->
+    forall x, pc (upd ls t l' x) <> PCbCall.
+  Proof.
+    intros I He x. updc x t; [|now apply (k9 _ _ I)].
+    eapply jeff_ncall; eauto. now apply (k9 _ _ I).
   Qed.
 
   Lemma P_k4 t g ls g' l' : JInv g ls -> jeff tgt t g (ls t) g' l' -> blocked (ag g t) = false ->
@@ -309,86 +304,28 @@ Section JInv.
       intros Hx. updc x t; [congruence|now apply K4].
   Qed.
 
-  Lemma P_k6 t g ls g' l' : JInv g ls -> jeff tgt t g (ls t) g' l' ->
-    forall u, incb (pc (upd ls t l' u)) = true -> cbs g' u <> [].
-  Proof.
-    intros I He. pose proof (k6 _ _ I) as K6.
-    djeff He; intros u; try (rewrite upd_self; apply K6); rewrite Ec;
-      try (updc u t; [try rewrite Hpc'; try rewrite El; cbn; try discriminate|apply K6]).
-    - destruct (plain_joinpc _ Hpl') as (_ & _ & E & _). rewrite E. discriminate.
-    - (* push *)
-      unfold set1. destruct (Nat.eqb_spec u (tgt t k)); [discriminate|].
-      updc u t; [rewrite Hpc'; discriminate|apply K6].
-    - intros _. exact Hcb.
-    - intros _. rewrite Hcb. discriminate.
-    - intros _. apply (K6 t). rewrite Hpc. reflexivity.
-    - intros _. apply (K6 t). rewrite Hpc. reflexivity.
-    - unfold set1. updc u t; [rewrite Hpc'; discriminate|apply K6].
-    - unfold set1. updc u t; [intros _; exact Hcb|apply K6].
-    - unfold set1. updc u t; [rewrite Hpc'; discriminate|apply K6].
-  Qed.
-
   Lemma P_k7 t g ls g' l' : JInv g ls -> jeff tgt t g (ls t) g' l' ->
     forall u, postcb (pc (upd ls t l' u)) = true -> ran g' u = true.
   Proof.
     intros I He. pose proof (k7 _ _ I) as K7.
     djeff He; intros u; try (rewrite upd_self; apply K7); rewrite Er;
-      try (updc u t; [try rewrite Hpc'; try rewrite El; cbn; try discriminate|apply K7]).
-    - destruct (plain_joinpc _ Hpl') as (_ & _ & _ & E & _). rewrite E. discriminate.
-    - updc u t; [intros _; apply set1_same|]. intros Hu. rewrite set1_other by auto. now apply K7.
+      try (updc u t; [try rewrite Hpc'; cbn; try discriminate|apply K7]).
+    - destruct (plain_joinpc _ Hpl') as (_ & _ & E & _). rewrite E. discriminate.
     - updc u t; [intros _; apply set1_same|]. intros Hu. rewrite set1_other by auto. now apply K7.
     - intros _. apply K7. rewrite Hpc. reflexivity.
     - intros _. apply K7. rewrite Hpc. reflexivity.
   Qed.
 
-  Lemma regd_step t g ls g' l' j k0 : jeff tgt t g (ls t) g' l' -> regd g ls j k0 -> regd g' (upd ls t l') j k0.
-  Proof.
-    intros He. pose proof (jeff_hid _ _ _ _ _ He) as [Hmono _].
-    assert (Hf : forall a b, hid g a b = false -> hid g' a b = false).
-    { intros a b E. destruct (hid g' a b) eqn:E'; [apply Hmono in E'; congruence|reflexivity]. }
-    unfold regd. rewrite upd_pc, upd_prog. destruct (Nat.eqb_spec j t); [subst j|].
-    2:{ intros [R|[R|[R|R]]]; auto. }
-    intros [R|[R|[R|R]]].
-    - djeff He; auto; try (rewrite Hpc in R; cbn in R; try discriminate; inversion R; subst; left; rewrite Hpc'; reflexivity).
-      + destruct (plain_joinpc _ Hpl) as (_ & _ & _ & _ & _ & E & _). congruence.
-      + destruct (plain_joinpc _ Hpl) as (_ & _ & _ & _ & _ & E & _). congruence.
-      + subst l'. right. right. left. split; reflexivity.
-      + rewrite Hpc in R; cbn in R. inversion R; subst. right. left. rewrite Eh. apply set2_same.
-    - right. left. auto.
-    - djeff He; auto; try (exfalso; apply Hne; exact R); try (destruct R as [R1 R2]; rewrite Hpc in R1; discriminate).
-      right. right. right. rewrite Hpc'. reflexivity.
-    - djeff He; auto; try (rewrite Hpc in R; discriminate); try (right; right; right; rewrite Hpc'; reflexivity).
-      + destruct (plain_joinpc _ Hpl) as (_ & E & _). congruence.
-      + destruct (plain_joinpc _ Hpl) as (_ & E & _). congruence.
-      + congruence.
-  Qed.
-
-  Lemma In_tl {A} (x : A) l : In x (tl l) -> In x l.
-  Proof. destruct l; cbn; auto. Qed.
-
-  Lemma P_k5 t g ls g' l' : JInv g ls -> jeff tgt t g (ls t) g' l' ->
-    forall u j, In j (cbs g' u) -> exists k, tgt j k = u /\ h0 j k = true /\ regd g' (upd ls t l') j k.
-  Proof.
-    intros I He. pose proof He as He'.
-    assert (Hold : forall u j, In j (cbs g u) -> exists k, tgt j k = u /\ h0 j k = true /\ regd g' (upd ls t l') j k).
-    { intros u j Hin. destruct (k5 _ _ I u j Hin) as (k & A & B & C). exists k. repeat split; auto.
-      eapply regd_step; eauto. }
-    djeff He; intros u j0; try (apply Hold); rewrite Ec; try (apply Hold).
-    - (* push *)
-      unfold set1. destruct (Nat.eqb_spec u (tgt t k)); [subst u|apply Hold].
-      intros [<-|Hin]; [|now apply Hold].
-      destruct (k2 _ _ I t k) as [Hh _]; [rewrite Hpc; reflexivity|].
-      exists k. repeat split; [now apply (k1 _ _ I)|]. left. rewrite upd_pc, Nat.eqb_refl, Hpc'. reflexivity.
-    - unfold set1. destruct (Nat.eqb_spec u t); [intros []|apply Hold].
-    - unfold set1. destruct (Nat.eqb_spec u t); [subst; intros Hin; apply In_tl in Hin; now apply Hold|apply Hold].
-    - unfold set1. destruct (Nat.eqb_spec u t); [intros []|apply Hold].
-  Qed.
-
-  Lemma flag_keep t g l g' l' x u : jeff tgt t g l g' l' -> x <> t -> flag g x u = true -> flag g' x u = true.
+  Lemma flag_keep t g l g' l' x u c0 : jeff tgt t g l g' l' -> x <> t -> flag g x u c0 = true -> flag g' x u c0 = true.
   Proof.
     intros He Hx Hf. djeff He; auto; rewrite Ef; auto.
-    - rewrite set2_other; auto.
-    - apply set2_true. auto.
+    - rewrite set3_other; auto.
+    - apply set3_true. auto.
+  Qed.
+
+  Lemma gen_keep t g l g' l' x : jeff tgt t g l g' l' -> x <> t -> gen g' x = gen g x.
+  Proof.
+    intros He Hx. djeff He; auto; rewrite Egn; auto. now rewrite set1_other.
   Qed.
 
   Lemma ag_keep t g l g' l' x : jeff tgt t g l g' l' -> x <> t -> blocked (ag g x) = false ->
@@ -403,35 +340,20 @@ Section JInv.
     - rewrite set1_other by auto. auto.
   Qed.
 
-  Lemma cbs_keep t g ls g' l' u : JInv g ls -> jeff tgt t g (ls t) g' l' -> u <> t ->
-    cbs g' u = cbs g u \/ exists k d, pc (ls t) = PJoinAdd k d /\ tgt t k = u /\ cbs g' u = t :: cbs g u.
+  (* the list of another task only grows *)
+  Lemma cbs_keep t g l g' l' u e : jeff tgt t g l g' l' -> u <> t -> In e (cbs g u) -> In e (cbs g' u).
   Proof.
-    intros I He Hu. djeff He; auto; rewrite Ec; auto; try (left; rewrite set1_other by auto; reflexivity).
-    unfold set1. destruct (Nat.eqb_spec u (tgt t k)); [subst; right; eauto|auto].
-  Qed.
-
-  Lemma precall_of p : incb p = false -> postcb p = false -> precall p = true.
-  Proof. destruct p; cbn; congruence. Qed.
-
-  (* nobody but the joiner itself registers at its target *)
-  Lemma sole_pusher g ls x k t k' : JInv g ls -> joinpc (pc (ls x)) = Some k -> joinpc (pc (ls t)) = Some k' ->
-    tgt t k' = tgt x k -> t = x /\ k' = k.
-  Proof.
-    intros I Hx Ht E. destruct (k2 _ _ I x k Hx) as [H1 _]. destruct (k2 _ _ I t k' Ht) as [H2 _].
-    apply (k1 _ _ I) in H1. apply (k1 _ _ I) in H2. apply (inj t k' x k H2 H1 E).
-  Qed.
-
-  Lemma push_empty g ls t k d : JInv g ls -> pc (ls t) = PJoinAdd k d -> cbs g (tgt t k) = [].
-  Proof.
-    intros I Hpc. destruct (cbs g (tgt t k)) as [|j r] eqn:Hc; [reflexivity|exfalso].
-    destruct (k5 _ _ I (tgt t k) j) as (k' & A & B & C); [rewrite Hc; now left|].
-    destruct (k2 _ _ I t k) as [Hh _]; [rewrite Hpc; reflexivity|].
-    destruct (inj j k' t k B (k1 _ _ I _ _ Hh) A) as [-> ->].
-    unfold regd in C. rewrite Hpc in C. cbn in C. destruct C as [C|[C|[[C _]|C]]]; congruence.
+    intros He Hu Hin. djeff He; auto; rewrite Ec; auto; try (rewrite set1_other by auto; exact Hin).
+    unfold set1. destruct (Nat.eqb_spec u (tgt t k)); [subst; now right|exact Hin].
   Qed.
 
   Lemma waitpc_joinpc p k : waitpc p = Some k -> joinpc p = Some k.
   Proof. destruct p; cbn; congruence. Qed.
+
+  Lemma postcb_false_of_ran g ls u : JInv g ls -> ran g u = false -> postcb (pc (ls u)) = false.
+  Proof.
+    intros I Hr. destruct (postcb (pc (ls u))) eqn:E; [|reflexivity]. apply (k7 _ _ I) in E. congruence.
+  Qed.
 
   Lemma P_k8 t g ls g' l' : JInv g ls -> jeff tgt t g (ls t) g' l' -> blocked (ag g t) = false ->
     forall x k, waitpc (pc (upd ls t l' x)) = Some k -> Jst g' (upd ls t l') x k.
@@ -442,79 +364,82 @@ Section JInv.
     - (* the joiner itself steps *)
       destruct (Nat.eqb_spec (tgt t k0) t) as [E|_]; [congruence|].
       pose proof (k8 _ _ I t) as K8. unfold Jst in K8.
-      djeff He; try rewrite Hpc'; try rewrite El; cbn; try discriminate.
+      djeff He; try rewrite Hpc'; cbn; try discriminate.
       + intros Hw. apply K8. exact Hw.
-      + destruct (plain_joinpc _ Hpl') as (_ & _ & _ & _ & E & _). congruence.
-      + (* push *)
-        intros Hk; inversion Hk; subst k0. right. left. split.
-        * rewrite Ec, set1_same, (push_empty _ _ _ _ _ I Hpc). reflexivity.
-        * apply precall_of.
-          -- destruct (incb (pc (ls (tgt t k)))) eqn:Ei; [|reflexivity].
-             apply (k6 _ _ I) in Ei. rewrite (push_empty _ _ _ _ _ I Hpc) in Ei. congruence.
-          -- destruct (postcb (pc (ls (tgt t k)))) eqn:Ei; [|reflexivity].
-             apply (k7 _ _ I) in Ei. congruence.
+      + destruct (plain_joinpc _ Hpl') as (_ & _ & _ & E & _). congruence.
+      + (* push: this registration is in the list and the target has not finished its loop *)
+        intros Hk; inversion Hk; subst k0. right. left. rewrite Ec, Egn, !set1_same. split; [now left|].
+        eapply postcb_false_of_ran; eauto.
       + (* flag not set: suspend next *)
         intros Hk; inversion Hk; subst k0. specialize (K8 k). rewrite Hpc in K8. specialize (K8 eq_refl).
-        rewrite Ec, Ef, Ea. destruct K8 as [(F & _)|[K8|(P & F)]]; [congruence|right; left; exact K8|congruence].
+        rewrite Ec, Ef, Ea, Egn. destruct K8 as [(F & _)|K8]; [congruence|right; exact K8].
       + (* suspend *)
         intros Hk; inversion Hk; subst k0. specialize (K8 k). rewrite Hpc in K8. specialize (K8 eq_refl).
-        rewrite Ec, Ef, Ea, set1_same. destruct K8 as [(F & B & S)|[K8|K8]]; [left|right; left; exact K8|right; right; exact K8].
+        rewrite Ec, Ef, Ea, Egn, set1_same. destruct K8 as [(F & B & S)|K8]; [left|right; exact K8].
         cbn in S. specialize (S eq_refl). unfold a_suspend. rewrite S. cbn. repeat split; auto; discriminate.
       + (* woken *)
         intros Hk; inversion Hk; subst k0. specialize (K8 k). rewrite Hpc in K8. specialize (K8 eq_refl).
-        rewrite Ec, Ef, Ea. destruct K8 as [(F & B & S)|[K8|K8]]; [left|right; left; exact K8|right; right; exact K8].
+        rewrite Ec, Ef, Ea, Egn. destruct K8 as [(F & B & S)|K8]; [left|right; exact K8].
         repeat split; auto; discriminate.
     - (* another task steps *)
       intros Hw. pose proof (k8 _ _ I x k0 Hw) as J. unfold Jst in J.
-      assert (Hkeep : flag g x (tgt x k0) = true /\ blocked (ag g x) = false /\ (issusp (pc (ls x)) = true -> tok (ag g x) = true) ->
-                      flag g' x (tgt x k0) = true /\ blocked (ag g' x) = false /\ (issusp (pc (ls x)) = true -> tok (ag g' x) = true)).
+      rewrite (gen_keep _ _ _ _ _ x He Hx).
+      set (cx := gen g x) in *. set (u := tgt x k0) in *.
+      assert (Hkeep : flag g x u cx = true /\ blocked (ag g x) = false /\ (issusp (pc (ls x)) = true -> tok (ag g x) = true) ->
+                      flag g' x u cx = true /\ blocked (ag g' x) = false /\ (issusp (pc (ls x)) = true -> tok (ag g' x) = true)).
       { intros (F & B & S). destruct (ag_keep _ _ _ _ _ x He Hx B) as [B' T']. split; [eapply flag_keep; eauto|]. split; auto. }
-      destruct (Nat.eqb_spec (tgt x k0) t) as [Eu|Hu].
+      destruct (Nat.eqb_spec u t) as [Eu|Hu].
       + (* the stepping task is the target *)
         rewrite Eu in *.
-        destruct J as [J|[(C & P)|(P & F)]]; [left; now apply Hkeep| |].
-        * (* registered, not yet invoked *)
-          assert (Hsame : cbs g' t = cbs g t -> precall (pc l') = true -> 
-                          (flag g' x t = true /\ blocked (ag g' x) = false /\ (issusp (pc (ls x)) = true -> tok (ag g' x) = true)) \/
-                          (cbs g' t = [x] /\ precall (pc l') = true) \/ (pc l' = PCbRes x /\ flag g' x t = true)).
+        destruct J as [J|[(C & P)|[P|(P & F)]]]; [left; now apply Hkeep| | |].
+        * (* registered, the loop is not over *)
+          assert (Hsame : cbs g' t = cbs g t -> postcb (pc l') = false ->
+                          (flag g' x t cx = true /\ blocked (ag g' x) = false /\ (issusp (pc (ls x)) = true -> tok (ag g' x) = true)) \/
+                          (In (x, cx) (cbs g' t) /\ postcb (pc l') = false) \/ pc l' = PCbRun x cx \/ (pc l' = PCbRes x /\ flag g' x t cx = true)).
           { intros E1 E2. right. left. split; congruence. }
-          djeff He; try (rewrite Hpc in P; discriminate); try congruence;
-            try (solve [apply Hsame; [try rewrite Ec; reflexivity|try rewrite Hpc'; try rewrite El; reflexivity]]).
+          djeff He; try (rewrite Hpc in P; discriminate);
+            try (solve [apply Hsame; [try rewrite Ec; reflexivity|try rewrite Hpc'; reflexivity]]).
           -- apply Hsame; auto.
-          -- apply Hsame; [rewrite Ec; reflexivity|]. destruct (plain_joinpc _ Hpl') as (_ & _ & _ & _ & _ & _ & _ & E & _). exact E.
+          -- apply Hsame; [rewrite Ec; reflexivity|]. destruct (plain_joinpc _ Hpl') as (_ & _ & E & _). exact E.
           -- apply Hsame; [|rewrite Hpc'; reflexivity]. rewrite Ec.
              destruct (k2 _ _ I t k) as [_ Hs]; [rewrite Hpc; reflexivity|]. rewrite set1_other by auto. reflexivity.
-          -- rewrite Hcb in C. inversion C; subst. right. right. split; [exact Hpc'|]. rewrite Ef. apply set2_same.
+          -- rewrite Hcb in C. destruct C.
+          -- rewrite Hcb in C. destruct C as [C|C].
+             ++ inversion C; subst. right. right. left. exact Hpc'.
+             ++ right. left. rewrite Ec, set1_same, Hpc'. split; [exact C|reflexivity].
+        * (* taken out of the list, not yet invoked *)
+          djeff He; try (rewrite Hpc in P; discriminate); try (destruct Hpc as [Hpc|Hpc]; rewrite Hpc in P; discriminate).
+          -- right. right. left. exact P.
+          -- destruct (plain_joinpc _ Hpl) as (_ & E & _). rewrite P in E. discriminate.
+          -- destruct (plain_joinpc _ Hpl) as (_ & E & _). rewrite P in E. discriminate.
+          -- rewrite P in Hex. discriminate.
+          -- rewrite Hpc in P. inversion P; subst. right. right. right. split; [exact Hpc'|]. rewrite Ef. apply set3_same.
         * (* flag set, resume pending *)
-          djeff He; try (rewrite Hpc in P; discriminate); try congruence.
-          -- right. right. auto.
-          -- destruct (plain_joinpc _ Hpl) as (_ & _ & E & _). rewrite P in E. discriminate.
-          -- destruct (plain_joinpc _ Hpl) as (_ & _ & E & _). rewrite P in E. discriminate.
+          djeff He; try (rewrite Hpc in P; discriminate); try (destruct Hpc as [Hpc|Hpc]; rewrite Hpc in P; discriminate).
+          -- right. right. right. auto.
+          -- destruct (plain_joinpc _ Hpl) as (_ & E & _). rewrite P in E. discriminate.
+          -- destruct (plain_joinpc _ Hpl) as (_ & E & _). rewrite P in E. discriminate.
           -- rewrite P in Hex. discriminate.
           -- rewrite Hpc in P. inversion P; subst j. left. rewrite Ef, Ea, set1_same. split; [exact F|]. split; [reflexivity|].
              intros Hs. cbn. destruct (blocked (ag g x)) eqn:Bx; [|reflexivity].
              apply (k4 _ _ I) in Bx. destruct (pc (ls x)); discriminate.
       + (* unrelated *)
-        destruct J as [J|[(C & P)|(P & F)]]; [left; now apply Hkeep| |].
-        * right. left. split; [|exact P].
-          destruct (cbs_keep _ _ _ _ _ (tgt x k0) I He Hu) as [->|(k' & d' & Hpc & E & _)]; [exact C|].
-          exfalso. destruct (sole_pusher g ls x k0 t k' I (waitpc_joinpc _ _ Hw)) as [E' _]; [rewrite Hpc; reflexivity|exact E|].
-          congruence.
-        * right. right. split; [exact P|]. eapply flag_keep; eauto.
+        destruct J as [J|[(C & P)|[P|(P & F)]]]; [left; now apply Hkeep| | |].
+        * right. left. split; [|exact P]. eapply cbs_keep; eauto.
+        * right. right. left. exact P.
+        * right. right. right. split; [exact P|]. eapply flag_keep; eauto.
   Qed.
 
   Lemma JInv_upd_self g ls t : JInv g ls -> JInv g (upd ls t (ls t)).
   Proof.
-    intros I. destruct I as [i1 i2 i3 i4 i5 i6 i7 i8]. constructor; intros *; rewrite ?upd_self; auto.
-    - intros Hin. destruct (i5 _ _ Hin) as (k & A & B & C). exists k. repeat split; auto.
-      unfold regd in *. rewrite !upd_self. exact C.
+    intros I. destruct I as [i1 i2 i3 i4 i7 i8 i9]. constructor; intros *; rewrite ?upd_self; auto.
     - intros Hw. specialize (i8 _ _ Hw). unfold Jst in *. rewrite !upd_self. exact i8.
   Qed.
 
   Lemma JInv_step t g ls : JInv g ls ->
-    JInv (fst (tstep true tgt tt t g (ls t))) (upd ls t (snd (tstep true tgt tt t g (ls t)))).
+    JInv (fst (tstep true true tgt tt t g (ls t))) (upd ls t (snd (tstep true true tgt tt t g (ls t)))).
   Proof.
-    intros I. destruct (tstep_jeff tgt t g (ls t)) as [He Hst].
+    intros I. destruct (tstep_jeff tgt t g (ls t) (k9 _ _ I t)) as [He Hst].
     destruct (blocked (ag g t)) eqn:Hb.
     - rewrite (Hst eq_refl). cbn [fst snd]. now apply JInv_upd_self.
     - constructor.
@@ -522,10 +447,9 @@ Section JInv.
       + eapply P_k2; eauto.
       + eapply P_k3; eauto.
       + eapply P_k4; eauto.
-      + eapply P_k5; eauto.
-      + eapply P_k6; eauto.
       + eapply P_k7; eauto.
       + eapply P_k8; eauto.
+      + eapply P_k9; eauto.
   Qed.
 
   Lemma JInv_init progs : JInv (g_init h0) (l_init n progs).
@@ -533,76 +457,110 @@ Section JInv.
     constructor; cbn; auto; try discriminate.
     - intros t k. unfold l_init. destruct (Nat.ltb t n); cbn; discriminate.
     - intros t Ht. unfold l_init. apply Nat.ltb_lt in Ht. rewrite Ht. cbn. discriminate.
-    - intros u j [].
-    - intros u. unfold l_init. destruct (Nat.ltb u n); cbn; discriminate.
     - intros u. unfold l_init. destruct (Nat.ltb u n); cbn; discriminate.
     - intros t k. unfold l_init. destruct (Nat.ltb t n); cbn; discriminate.
+    - intros t. unfold l_init. destruct (Nat.ltb t n); cbn; discriminate.
   Qed.
 
-  Lemma JInv_run progs sched : let c := jrun true tgt h0 n progs sched in JInv (fst c) (snd c).
+  Lemma JInv_run progs sched : let c := jrun true true tgt h0 n progs sched in JInv (fst c) (snd c).
   Proof.
-    unfold jrun. apply (run_inv _ _ _ (tstep true tgt) JInv).
+    unfold jrun. apply (run_inv _ _ _ (tstep true true tgt) JInv).
     - intros [] t g ls I. now apply JInv_step.
     - apply JInv_init.
   Qed.
+End JInv.
+
+Section Returns.
+  Variable tgt : nat -> nat -> nat.
+  Variable h0 : nat -> nat -> bool.
+  Variable n : nat.
+
+  Lemma after_catch_len p : length (after_catch p) <= length p.
+  Proof. induction p as [|a r IH]; cbn; [lia|]. destruct a; cbn; lia. Qed.
 
   (* a task whose step is a stutter is blocked, not a task, or done *)
-  Lemma stuck_task t g l : tstep true tgt tt t g l = (g, l) -> blocked (ag g t) = true \/ pc l = PIdle \/ pc l = PDone.
+  Lemma stuck_task t g l : pc l <> PCbCall ->
+    tstep true true tgt tt t g l = (g, l) -> blocked (ag g t) = true \/ pc l = PIdle \/ pc l = PDone.
   Proof.
-    unfold tstep. destruct (blocked (ag g t)); [auto|]. intros Hst. right.
-    destruct (pc l) eqn:Hpc; auto; exfalso;
+    intros Hnc. unfold tstep. destruct (blocked (ag g t)); [auto|]. intros Hst. right.
+    destruct (pc l) eqn:Hpc; auto; try congruence; exfalso;
       [destruct (prog l) as [|a rest] eqn:Hprog; [|destruct a]| ..];
-      unfold ipoint_step, join_check, ended in Hst;
+      unfold ipoint_step, join_check, thrown, unwind, ended in Hst;
       repeat match type of Hst with
              | context [match ?x with _ => _ end] => destruct x eqn:?
              | context [if ?b then _ else _] => destruct b eqn:?
              end;
       apply (f_equal (fun r => (pc (snd r), length (prog (snd r))))) in Hst; cbn in Hst; rewrite ?Hpc, ?Hprog in Hst; cbn in Hst;
-      inversion Hst; lia.
+      inversion Hst; try lia.
+    - pose proof (after_catch_len rest). lia.
+  Qed.
+
+  (* The registration of a waiting joiner is never lost — in EVERY reachable state, whether this is
+     the joiner's first join or a join repeated after thread_interrupted left an earlier one. *)
+  Theorem rejoin_registration_not_lost progs sched :
+    let c := jrun true true tgt h0 n progs sched in
+    forall t k, waitpc (pc (snd c t)) = Some k -> Jst tgt (fst c) (snd c) t k.
+  Proof.
+    intros c t k Hw. pose proof (JInv_run tgt h0 n progs sched) as I. cbv zeta in I. fold c in I.
+    now apply (k8 _ _ _ _ _ I).
   Qed.
 
   (* W: a task blocked in a stuck state sits in join()'s suspension on a valid handle whose
      target is not a task at all or is itself blocked (in a join) — never on a target that has
      finished or can still run *)
   Theorem join_blocked_only_on_blocked progs sched :
-    let c := jrun true tgt h0 n progs sched in
-    stuck true tgt c ->
+    let c := jrun true true tgt h0 n progs sched in
+    stuck true true tgt c ->
     forall t, blocked (ag (fst c) t) = true ->
       exists k d, pc (snd c t) = PJoinWake k d /\ h0 t k = true /\
                   (pc (snd c (tgt t k)) = PIdle \/ blocked (ag (fst c) (tgt t k)) = true).
   Proof.
-    intros c St t Hb. pose proof (JInv_run progs sched) as I. cbv zeta in I. fold c in I.
-    pose proof (k4 _ _ I t Hb) as Hw. destruct (pc (snd c t)) eqn:Hpc; try discriminate.
+    intros c St t Hb. pose proof (JInv_run tgt h0 n progs sched) as I. cbv zeta in I. fold c in I.
+    pose proof (k4 _ _ _ _ _ I t Hb) as Hw. destruct (pc (snd c t)) eqn:Hpc; try discriminate.
     exists k, d. split; [reflexivity|].
-    destruct (k2 _ _ I t k) as [Hh _]; [rewrite Hpc; reflexivity|]. split; [now apply (k1 _ _ I)|].
-    assert (J : Jst (fst c) (snd c) t k) by (apply (k8 _ _ I); rewrite Hpc; reflexivity).
-    pose proof (stuck_task _ _ _ (St (tgt t k))) as Su.
-    destruct J as [(_ & B & _)|[(_ & P)|(P & _)]]; [congruence| |].
+    destruct (k2 _ _ _ _ _ I t k) as [Hh _]; [rewrite Hpc; reflexivity|]. split; [now apply (k1 _ _ _ _ _ I)|].
+    assert (J : Jst tgt (fst c) (snd c) t k) by (apply (k8 _ _ _ _ _ I); rewrite Hpc; reflexivity).
+    pose proof (stuck_task _ _ _ (k9 _ _ _ _ _ I (tgt t k)) (St (tgt t k))) as Su.
+    assert (Hrun : forall p, pc (snd c (tgt t k)) = p -> iswake p = false -> p <> PIdle -> p <> PDone ->
+                     pc (snd c (tgt t k)) = PIdle \/ blocked (ag (fst c) (tgt t k)) = true).
+    { intros p E1 E2 E3 E4. destruct Su as [Su|[Su|Su]]; auto; try congruence. }
+    destruct J as [(_ & B & _)|[(_ & P)|[P|(P & _)]]]; [congruence| | |].
     - destruct Su as [Su|[Su|Su]]; auto. rewrite Su in P. discriminate.
-    - destruct Su as [Su|[Su|Su]]; auto. rewrite P in Su. discriminate.
+    - eapply Hrun; eauto; discriminate.
+    - eapply Hrun; eauto; discriminate.
   Qed.
 
   (* targets are tasks created later than their joiner (no cycles) *)
   Definition acyclic_targets : Prop := forall t k, h0 t k = true -> t < tgt t k /\ tgt t k < n.
 
   Theorem join_returns progs sched : acyclic_targets ->
-    let c := jrun true tgt h0 n progs sched in
-    stuck true tgt c ->
+    let c := jrun true true tgt h0 n progs sched in
+    stuck true true tgt c ->
     (forall t, blocked (ag (fst c) t) = false) /\ (forall t, t < n -> pc (snd c t) = PDone).
   Proof.
-    intros Hac c St. pose proof (JInv_run progs sched) as I. cbv zeta in I. fold c in I.
+    intros Hac c St. pose proof (JInv_run tgt h0 n progs sched) as I. cbv zeta in I. fold c in I.
     pose proof (join_blocked_only_on_blocked progs sched St) as W. fold c in W.
     assert (Hnb : forall m t, n - t <= m -> blocked (ag (fst c) t) = false).
     { induction m as [|m IH]; intros t Hm; destruct (blocked (ag (fst c) t)) eqn:Hb; auto; exfalso;
         destruct (W t Hb) as (k & d & _ & Hh & Hu); destruct (Hac t k Hh) as [H1 H2].
       - lia.
-      - destruct Hu as [Hu|Hu]; [now apply (k3 _ _ I _ H2)|]. rewrite IH in Hu; [discriminate|lia]. }
+      - destruct Hu as [Hu|Hu]; [now apply (k3 _ _ _ _ _ I _ H2)|]. rewrite IH in Hu; [discriminate|lia]. }
     split; [intros t; apply (Hnb (n - t)); lia|].
-    intros t Ht. destruct (stuck_task _ _ _ (St t)) as [S|[S|S]]; auto.
+    intros t Ht. destruct (stuck_task _ _ _ (k9 _ _ _ _ _ I t) (St t)) as [S|[S|S]]; auto.
     - rewrite (Hnb (n - t)) in S; [discriminate|lia].
-    - now apply (k3 _ _ I t Ht) in S.
+    - now apply (k3 _ _ _ _ _ I t Ht) in S.
   Qed.
-End JInv.
+
+  (* join again after an interruption: both halves together *)
+  Theorem rejoin_after_interrupt_returns progs sched :
+    let c := jrun true true tgt h0 n progs sched in
+    (forall t k, waitpc (pc (snd c t)) = Some k -> Jst tgt (fst c) (snd c) t k) /\
+    (acyclic_targets -> stuck true true tgt c ->
+       (forall t, blocked (ag (fst c) t) = false) /\ (forall t, t < n -> pc (snd c t) = PDone)).
+  Proof.
+    cbv zeta. split; [apply rejoin_registration_not_lost|]. intros Hac St. now apply join_returns.
+  Qed.
+End Returns.
 
 (* ------------------------------------------------------------------ witnesses *)
 Definition jp_sch (l : list nat) : list (nat * unit) := map (fun t => (t, tt)) l.
@@ -617,46 +575,110 @@ Definition chain_progs (t : nat) : list act :=
 Definition chain_sched : list (nat * unit) :=
   jp_sch (jp_rep 5 0 ++ jp_rep 5 1 ++ jp_rep 8 2 ++ jp_rep 10 1 ++ jp_rep 7 0).
 
-Lemma chain_hyps : inj_handles chain_tgt chain_h0 /\ acyclic_targets chain_tgt chain_h0 3.
+Lemma chain_hyps : acyclic_targets chain_tgt chain_h0 3.
 Proof.
-  unfold inj_handles, acyclic_targets, chain_tgt, chain_h0. split.
-  - intros t k t' k' H1 H2 E. apply andb_true_iff in H1. apply andb_true_iff in H2.
-    destruct H1 as [A _]. destruct H2 as [B _]. apply Nat.eqb_eq in A. apply Nat.eqb_eq in B. split; lia.
-  - intros t k H. apply andb_true_iff in H. destruct H as [_ H]. apply Nat.ltb_lt in H. lia.
+  unfold acyclic_targets, chain_tgt, chain_h0.
+  intros t k H. apply andb_true_iff in H. destruct H as [_ H]. apply Nat.ltb_lt in H. lia.
 Qed.
 
 Lemma join_returns_example :
-  let c := jrun true chain_tgt chain_h0 3 chain_progs chain_sched in
-  stuck true chain_tgt c /\ pc (snd c 0) = PDone /\ pc (snd c 1) = PDone /\ pc (snd c 2) = PDone /\
+  let c := jrun true true chain_tgt chain_h0 3 chain_progs chain_sched in
+  stuck true true chain_tgt c /\ pc (snd c 0) = PDone /\ pc (snd c 1) = PDone /\ pc (snd c 2) = PDone /\
   In (EJoinRet 0 0) (log (fst c)) /\ In (EJoinRet 1 0) (log (fst c)) /\
   (* both joiners really were blocked in join() on the way *)
-  let c1 := jrun true chain_tgt chain_h0 3 chain_progs (jp_sch (jp_rep 5 0 ++ jp_rep 5 1)) in
+  let c1 := jrun true true chain_tgt chain_h0 3 chain_progs (jp_sch (jp_rep 5 0 ++ jp_rep 5 1)) in
   blocked (ag (fst c1) 0) = true /\ blocked (ag (fst c1) 1) = true.
 Proof.
-  cbv zeta. set (c := jrun true chain_tgt chain_h0 3 chain_progs chain_sched). vm_compute in c.
+  cbv zeta. set (c := jrun true true chain_tgt chain_h0 3 chain_progs chain_sched). vm_compute in c.
   split; [|vm_compute; repeat split; auto 10].
   intros t. subst c. destruct t as [|[|[|t]]]; vm_compute; reflexivity.
 Qed.
 
-(* why [inj_handles] is needed (E4 of the notes: pop_front after a concurrent push_front): two tasks
-   join the SAME target; the second registers while the target is between front()() and
-   pop_front(); pop_front removes the NEW entry, the old one is invoked twice, the second joiner is
-   never resumed.  Stuck with task 1 blocked in join() although its target is PDone.  Only reachable
-   by API misuse: two pika::thread objects cannot refer to one thread (move-only), and join() on one
-   object from two tasks at once is a data race on id_. *)
+(* E4 of the notes, code BEFORE the second fix (pf = false: front()() unlocked, pop_front() after
+   re-locking): two tasks join the SAME target; the second registers while the target is between
+   front()() and pop_front(); pop_front removes the NEW entry, the old one is invoked twice, the
+   second joiner is never resumed.  Stuck with task 1 blocked in join() although its target is PDone.
+   (Two pika::thread objects cannot refer to one thread; kept as the small form of the defect.) *)
 Definition shared_tgt (t k : nat) : nat := 2.
 Definition all_valid (t k : nat) : bool := true.
 Definition shared_progs (t : nat) : list act :=
   match t with 0 => [AJoin 0] | 1 => [AJoin 0] | _ => [] end.
 Definition shared_sched : list (nat * unit) :=
-  jp_sch (jp_rep 5 0 ++ jp_rep 3 2 ++ jp_rep 5 1 ++ jp_rep 7 2 ++ jp_rep 7 0).
+  jp_sch (jp_rep 5 0 ++ jp_rep 3 2 ++ jp_rep 5 1 ++ jp_rep 7 2 ++ jp_rep 7 0 ++ jp_rep 7 1).
 
-Lemma join_returns_shared_target_refuted :
-  let c := jrun true shared_tgt all_valid 3 shared_progs shared_sched in
-  stuck true shared_tgt c /\ blocked (ag (fst c) 1) = true /\ pc (snd c 1) = PJoinWake 0 false /\
-  pc (snd c 2) = PDone /\ pc (snd c 0) = PDone /\ bdone (fst c) 2 = true /\ flag (fst c) 1 2 = false.
+Lemma shared_target_unfixed_strands :
+  let c := jrun true false shared_tgt all_valid 3 shared_progs shared_sched in
+  stuck true false shared_tgt c /\ blocked (ag (fst c) 1) = true /\ pc (snd c 1) = PJoinWake 0 false /\
+  pc (snd c 2) = PDone /\ pc (snd c 0) = PDone /\ bdone (fst c) 2 = true /\ flag (fst c) 1 2 1 = false.
 Proof.
-  cbv zeta. set (c := jrun true shared_tgt all_valid 3 shared_progs shared_sched). vm_compute in c.
+  cbv zeta. set (c := jrun true false shared_tgt all_valid 3 shared_progs shared_sched). vm_compute in c.
   split; [|vm_compute; repeat split].
   intros t. subst c. destruct t as [|[|[|t]]]; vm_compute; reflexivity.
 Qed.
+
+Lemma shared_target_fixed_returns :
+  let c := jrun true true shared_tgt all_valid 3 shared_progs shared_sched in
+  stuck true true shared_tgt c /\ pc (snd c 0) = PDone /\ pc (snd c 1) = PDone /\ pc (snd c 2) = PDone /\
+  In (EJoinRet 0 0) (log (fst c)) /\ In (EJoinRet 1 0) (log (fst c)).
+Proof.
+  cbv zeta. set (c := jrun true true shared_tgt all_valid 3 shared_progs shared_sched). vm_compute in c.
+  split; [|vm_compute; repeat split; auto 10].
+  intros t. subst c. destruct t as [|[|[|t]]]; vm_compute; reflexivity.
+Qed.
+
+(* join again after an interruption (public API only).  Task 0: try { t.join() } catch
+   (thread_interrupted) {} t.join();  task 1 interrupts task 0;  task 2 is the target.
+   Schedule: 0 registers (call 1) and suspends; 2 returns from its body, invokes the callback
+   (flag 1 set, 0 resumed) and stands before the re-lock; 1 interrupts 0; 0 wakes, the interruption
+   point after the suspension throws, 0 catches and joins again: registers call 2 (the target's
+   callbacks are not yet marked as run), consumes the stale token, suspends; 2 continues. *)
+Definition rj_tgt (t k : nat) : nat := 2.
+Definition rj_h0 (t k : nat) : bool := Nat.eqb t 0 && Nat.eqb k 0.
+Definition rj_progs (t : nat) : list act :=
+  match t with 0 => [AJoin 0; ACatch; AJoin 0] | 1 => [AIntr 0] | _ => [] end.
+Definition rj_sched : list (nat * unit) :=
+  jp_sch (jp_rep 5 0 ++ jp_rep 4 2 ++ jp_rep 2 1 ++ jp_rep 9 0 ++ jp_rep 6 2 ++ jp_rep 7 0 ++ jp_rep 4 1).
+
+Lemma rj_hyps : acyclic_targets rj_tgt rj_h0 3.
+Proof.
+  unfold acyclic_targets, rj_tgt, rj_h0. intros t k H. apply andb_true_iff in H. destruct H as [H _].
+  apply Nat.eqb_eq in H. lia.
+Qed.
+
+(* code before the second fix: pop_front() removes the registration of the SECOND join, the stale
+   one is invoked twice (flag 1 twice), flag 2 is never set: task 0 is blocked in join() for ever
+   although its target has terminated *)
+Lemma rejoin_unfixed_hangs :
+  let c := jrun true false rj_tgt rj_h0 3 rj_progs rj_sched in
+  stuck true false rj_tgt c /\ blocked (ag (fst c) 0) = true /\ pc (snd c 0) = PJoinWake 0 false /\
+  pc (snd c 2) = PDone /\ pc (snd c 1) = PDone /\ term (fst c) 2 = true /\
+  In (EIntrAt 0 IPSuspendPost true) (log (fst c)) /\ gen (fst c) 0 = 2 /\
+  flag (fst c) 0 2 1 = true /\ flag (fst c) 0 2 2 = false /\ ~ In (EJoinRet 0 0) (log (fst c)).
+Proof.
+  cbv zeta. set (c := jrun true false rj_tgt rj_h0 3 rj_progs rj_sched). vm_compute in c.
+  split; [|vm_compute; repeat split; auto 10; intros H; repeat (destruct H as [H|H]; [discriminate|]); exact H].
+  intros t. subst c. destruct t as [|[|[|t]]]; vm_compute; reflexivity.
+Qed.
+
+(* the same schedule on the fixed code: both registrations are invoked, the second join returns *)
+Lemma rejoin_fixed_returns :
+  let c := jrun true true rj_tgt rj_h0 3 rj_progs rj_sched in
+  stuck true true rj_tgt c /\ pc (snd c 0) = PDone /\ pc (snd c 1) = PDone /\ pc (snd c 2) = PDone /\
+  In (EIntrAt 0 IPSuspendPost true) (log (fst c)) /\ In (EJoinRet 0 0) (log (fst c)) /\ gen (fst c) 0 = 2 /\
+  flag (fst c) 0 2 1 = true /\ flag (fst c) 0 2 2 = true /\ hid (fst c) 0 0 = false /\
+  (* on the way: after the second registration both entries are pending / held *)
+  let c1 := jrun true true rj_tgt rj_h0 3 rj_progs (jp_sch (jp_rep 5 0 ++ jp_rep 4 2 ++ jp_rep 2 1 ++ jp_rep 9 0)) in
+  cbs (fst c1) 2 = [(0, 2)] /\ pc (snd c1 2) = PCbPop /\ blocked (ag (fst c1) 0) = true.
+Proof.
+  cbv zeta. set (c := jrun true true rj_tgt rj_h0 3 rj_progs rj_sched). vm_compute in c.
+  split; [|vm_compute; repeat split; auto 10].
+  intros t. subst c. destruct t as [|[|[|t]]]; vm_compute; reflexivity.
+Qed.
+
+(* the code as it was before BOTH fixes (single suspend, no flag; front()()/pop_front()): on this
+   schedule the second join returns — all callbacks were interchangeable ("resume the joiner"), the
+   one invoked twice stood in for the one dropped.  The hang is specific to per-call flags. *)
+Lemma rejoin_original_code_returns :
+  let c := jrun false false rj_tgt rj_h0 3 rj_progs rj_sched in
+  pc (snd c 0) = PDone /\ pc (snd c 2) = PDone /\ In (EJoinRet 0 0) (log (fst c)) /\ join_ok_b rj_tgt (fst c) = true.
+Proof. vm_compute. repeat split; auto 10. Qed.
